@@ -90,13 +90,13 @@ for _n, _a in (("CPCCA", None), ("MCA", 1.0), ("CCA", 0.0), ("RDA", [0.0, 1.0]))
               calls_input=_CROSS_INPUT))
 _add(Spec("ComplexMCA", "xeofs.cross.ComplexMCA", "cross", rotator="xeofs.cross.ComplexMCARotator",
           dask_ok=False, complex_input=True, has_predict=True, fixed_alpha=1.0,
-          calls=_CROSS_CALLS + _CPLX_CALLS, calls_input=_CROSS_INPUT))
+          calls=_CROSS_CALLS + _CPLX_CALLS + [("covariance_fraction_CD95", {})], calls_input=_CROSS_INPUT))
 _add(Spec("ComplexCPCCA", "xeofs.cross.ComplexCPCCA", "cross", rotator="xeofs.cross.ComplexCPCCARotator",
           dask_ok=False, complex_input=True, has_predict=True,
           calls=_CROSS_CALLS + _CPLX_CALLS, calls_input=_CROSS_INPUT))
 _add(Spec("HilbertMCA", "xeofs.cross.HilbertMCA", "cross", rotator="xeofs.cross.HilbertMCARotator",
           dask_ok=False, hilbert=True, has_transform=False, has_predict=False, time_ordered=True,
-          fixed_alpha=1.0, calls=_CROSS_CALLS + _CPLX_CALLS, calls_input=_CROSS_INPUT))
+          fixed_alpha=1.0, calls=_CROSS_CALLS + _CPLX_CALLS + [("covariance_fraction_CD95", {})], calls_input=_CROSS_INPUT))
 _add(Spec("HilbertCPCCA", "xeofs.cross.HilbertCPCCA", "cross", rotator="xeofs.cross.HilbertCPCCARotator",
           dask_ok=False, hilbert=True, has_transform=False, has_predict=False, time_ordered=True,
           calls=_CROSS_CALLS + _CPLX_CALLS, calls_input=_CROSS_INPUT))
@@ -301,9 +301,11 @@ class Env:
         return gen.sample_dims(self.descs[did])
 
 
-def fit_model(spec: Spec, model, fit: dict, env: Env):
+def fit_model(spec: Spec, model, fit: dict, env: Env, via: str | None = None):
     """fit = {"X": id, "Y": id?, "views": [ids]?, "w": id?, "wY": id?}"""
     if spec.family == "single":
+        if via == "fit_transform":
+            return model.fit_transform(env.get(fit["X"]), env.dim(fit["X"]), weights=env.get(fit.get("w")))
         return model.fit(env.get(fit["X"]), env.dim(fit["X"]), weights=env.get(fit.get("w")))
     if spec.family == "cross":
         return model.fit(env.get(fit["X"]), env.get(fit["Y"]), env.dim(fit["X"]),
